@@ -115,9 +115,14 @@ def gen_schedule(rng, kind=None):
             if rng.chance(1, 2):
                 ops.append("pmode %d async" % n)
         ops.append("open %d %d" % ((0, 1) if rng.chance(1, 2) else (1, 0)))
+        for _ in range(4):
+            ops.append("dany 0")
+        flaky = rng.chance(1, 3)
         for _ in range(rng.range(4, 14)):
             r = rng.below(10)
-            if r < 5:
+            if flaky and rng.chance(1, 4):
+                ops.append(rng.choice(["disc 0 1", "reconn 0 1", "confirm"]))
+            elif r < 5:
                 ops.append("dany %d" % rng.below(4))
             elif r < 8:
                 ops.append("cany %d" % rng.below(4))
@@ -626,6 +631,9 @@ def judge_trace(trace):
                     if not any(lo <= x <= hi for x in rel):
                         bad("d", last_step, "node %d chan %s: the %s owed for update %d (handed at step %d) was never released" % (n, chan, what, i, lo))
                         break
+        for c in end["chans"]:
+            if not c["usable"] and not fc_seen and c["chan"] not in expected_close:
+                bad("d", last_step, "node %d chan %s is not usable after every update completed, the funding confirmed and all messages were delivered (a held channel_ready was lost?)" % (c["n"], c["chan"]))
         for c in end["chans"]:
             if c["chan"] in expected_close or fc_seen:
                 # HTLCs in flight over a force-closed channel are resolved on chain, which no schedule does
